@@ -201,7 +201,7 @@ impl G<'_> {
             11 | 12 => format!("$({})", self.clist(depth - 1, false)),
             13 => format!("`{}`", self.simple_plain()),
             14 | 15 => format!("$(({}))", self.arith()),
-            16 => format!("$'{}'", self.rng.pick(&["a", "\\n", "\\x41", "\\101", "\\'", "\\\\", "\\u00e9", "\\cA", "a\\tb", "\\e"])),
+            16 => format!("$'{}'", self.rng.pick(&["a", "\\n", "\\x41", "\\101", "\\'", "\\\\", "\\u00e9", "\\cA", "a\\tb", "\\e", "\\c\\\\", "\\c?", "\\c[", "\\c@", "\\cz", "\\\"", "\\x7", "\\0", "\\U0001F600", "a\\\\'b'"])),
             17 => "~".to_string(),
             18 => format!("{}*{}?", self.rng.pick(&LITS), self.rng.pick(&["[ab]", "[!a-c]", "[[:alpha:]]", ""])),
             _ => self.rng.pick(&LITS).to_string(),
@@ -283,8 +283,17 @@ impl G<'_> {
         // a command whose name is a reserved word is legal when a redirection (or assignment) comes first
         if self.rng.chance(6) {
             let kw = *self.rng.pick(&["fi", "then", "else", "elif", "do", "done", "esac", "}", "{", "if", "while", "until", "for", "case", "in", "!", "function"]);
-            let r = self.redir(depth.min(1));
-            let mut v = vec![r, kw.to_string()];
+            // (what precedes the reserved word: a redirection, an assignment, or both)
+            let mut v = Vec::new();
+            match self.rng.below(3) {
+                0 => v.push(self.redir(depth.min(1))),
+                1 => v.push(format!("{}={}", self.name(), self.word(depth.min(1)))),
+                _ => {
+                    v.push(format!("{}={}", self.name(), self.word(depth.min(1))));
+                    v.push(self.redir(depth.min(1)));
+                }
+            }
+            v.push(kw.to_string());
             for _ in 0..self.rng.below(3) {
                 v.push(self.word(depth.min(1)));
             }
@@ -411,7 +420,7 @@ impl G<'_> {
                 s.push_str("esac");
                 s
             }
-            8 => format!("{}() {}", self.name(), {
+            8 => format!("{}{}{}() {}", if self.rng.chance(8) { *self.rng.pick(&["a=1 ", ">x ", "x "]) } else { "" }, if self.rng.chance(12) { *self.rng.pick(&["f$", "a.b", "'q'", "x\\*", "$v", "\"d\"", "f$ ", "-x", "~u", "a=b"]) } else { self.name() }, if self.rng.chance(10) { " " } else { "" }, {
                 let b = self.clist(d, false);
                 let t = self.term();
                 format!("{{ {b}{t}}}")
